@@ -115,10 +115,8 @@ def check_copy(c, cp, wr):
             check_only_filter(c, cp, g, n, on, v, 'output_filter', 'child-filter')
             # every non-empty read reaches the write
             emp = [t for t in g.nodes if t.kind == 'test' and norm(t.ast) in ("%s == b''" % v, 'not %s' % v) and g.path(n, t, skip_labels=('exc',))]
-            exits = set()
-            for t in emp:
-                exits |= set(s for s, l in t.succ if l == 'true')
-            okp, p = g.must_pass(n, {nn for nn, _ in reads if nn is not n} | {g.exit}, {on} | exits, skip_labels=('exc',))
+            exits = set((t, 'true') for t in emp)
+            okp, p = g.must_pass(n, {nn for nn, _ in reads if nn is not n} | {g.exit}, {on}, skip_labels=('exc',), through_edges=exits)
             c.check(okp, cp, ok_, 'every non-empty chunk from the child reaches stdout before the next read', witness=g.describe_path(p) if p else None, tag='child-delivered')
         elif 'STDIN' in srcfd:
             guard = [t for t in g.nodes if t.kind == 'test' and norm(t.ast) == 'self.STDIN_FILENO in r']
